@@ -127,6 +127,15 @@ func (c *Ctx) printerFunc() *ssa.Function {
 				return fn
 			case *ssa.Function:
 				return x
+			case *ssa.Call:
+				// built by a helper: the one closure that helper returns
+				if sc := x.Call.StaticCallee(); sc != nil && c.P.FnInModule(sc) {
+					if rcs := returnedClosures(sc); len(rcs) == 1 {
+						fn, _ := rcs[0].Fn.(*ssa.Function)
+						return fn
+					}
+				}
+				return nil
 			}
 			return nil
 		}
